@@ -483,16 +483,16 @@ def c14_r4(ctx):
         ao, bo = f.origins_of_operand(d["a"]), f.origins_of_operand(d["b"])
         return all(o[-1] == ("field", "node_type") for o in ao | bo) and ao != bo and ao and bo
     equal_e = f.cmp_edges(lambda d: d["op"] == "Ne" and kinds_cmp(d), False) | f.cmp_edges(lambda d: d["op"] == "Eq" and kinds_cmp(d), True)
-    none_e = f.edges_of_call_variant(g, "None")
-    for (bb, idx, rv, pl) in f.constructs("std::result::Result", "Ok"):
-        if pl["local"] != 0:
-            continue
-        ctx.inst("Ok of the merge", f.where(bb, idx))
-        r = f.reach([0], avoid_edges=equal_e | none_e)
-        if bb in r:
-            ctx.viol((f.id, "repeated-name-unchecked"), "a repeated name can be accepted without its kind (file / directory) having been compared with the earlier entry: one of the two entries is silently dropped", f.where(bb, idx))
-        else:
-            ctx.ok()
+    # (from the hit edge of the lookup, nothing but the comparison's `equal` edge or the
+    #  Contradiction error leads on - to a return, to the next line, to an insert)
+    ctx.inst("hit of the name lookup", g.where)
+    contra_blocks = [bb for (bb, idx, rv, pl) in f.constructs(BERR, "Contradiction")]
+    r = f.reach([x for (_, x) in some], avoid_edges=equal_e, avoid_blocks=contra_blocks)
+    headers = [lp["header"] for lp in f.loops() if g.bb in lp["body"]]
+    if some and (any(b in r for b in f.return_blocks) or any(h in r for h in headers) or any(c2.bb in r for c2 in ins)):
+        ctx.viol((f.id, "repeated-name-unchecked"), "a repeated name can be accepted without its kind (file / directory) having been compared with the earlier entry: one of the two entries is silently dropped", g.where)
+    else:
+        ctx.ok()
     # producer: PathBundle{nodes}: the node vector is filled by one complete traversal of the BTreeMap
     for h in prod(ctx.P):
         for (bb, idx, rv, pl) in h.constructs("bundle::PathBundle"):
@@ -588,15 +588,18 @@ def c14_r5(ctx):
                         if is_call(o, "std::vec::Vec::<T, A>::len"):
                             return True
             return False
-        e = f.cmp_edges(lambda d: d["op"] == "Gt" and nonempty(d), True) | f.cmp_edges(lambda d: d["op"] == "Ne" and nonempty(d), True) | \
-            f.cmp_edges(lambda d: d["op"] == "Eq" and nonempty(d), False) | f.cmp_edges(lambda d: d["op"] == "Le" and nonempty(d), False)
+        # the list of blank-line indices: the vector the error carries
+        carried = f.vars_of_operand(rv["ops"][0]) if rv.get("ops") else set()
+
+        def is_blank_list(op):
+            return not carried or f.vars_of_operand(op) == carried
+        e = f.nonempty_edges(is_blank_list, True)
         if f.dominated_by_edges(bb, e):
             ctx.ok()
         else:
             ctx.viol((f.id, "empty-lines-unguarded"), "ContainsEmptyLines is not tied to a non-empty list of blank lines", f.where(bb, idx))
         # the recursive parse is reached only when that list is empty
-        ok_e = f.cmp_edges(lambda d: d["op"] == "Gt" and nonempty(d), False) | f.cmp_edges(lambda d: d["op"] == "Eq" and nonempty(d), True) | \
-            f.cmp_edges(lambda d: d["op"] == "Ne" and nonempty(d), False)
+        ok_e = f.nonempty_edges(is_blank_list, False)
         rec = [c for c in f.calls if ctx.P.local_targets(c) and "PathBundle" in ctx.P.fns[ctx.P.local_targets(c)[0]].body.get("output", {}).get("s", "")]
         for c in rec:
             if not f.dominated_by_edges(c.bb, ok_e):
@@ -636,8 +639,11 @@ def c13_r3(ctx):
             for t in g.calls:
                 tg = ctx.P.local_targets(t)
                 if tg and ctx.P.fns[tg[0]].body.get("output", {}).get("s") == "bool" and g.origins_of_operand(t.args[0]) == ao:
-                    if _is_sorted_pred(ctx, ctx.P.fns[tg[0]]):
+                    verdict = _is_sorted_pred(ctx, ctx.P.fns[tg[0]])
+                    if verdict:
                         guards |= g.bool_edges_of_call(t, True)
+                    elif verdict is None and g.dominated_by_edges(c.bb, g.bool_edges_of_call(t, True)):
+                        raise AnalysisError("idiom not recognised: %s guards the unsorted use of %s but is not written as windows(2).all(|w| w[0] <= w[1]); the rule cannot tell whether it tests sortedness" % (tg[0], fld))
             if not g.dominated_by_edges(c.bb, guards):
                 ok = False
                 ctx.viol((g.id, "unsorted-into-identity", fld), "%s reach the identity hash neither sorted nor checked to be sorted: re-ordering the lines would change the rule's identity" % fld, c.where)
@@ -656,17 +662,17 @@ def _is_sorted_pred(ctx, f):
     """windows(2).all(|w| w[0] <= w[1])  (seen after desugaring as a loop over windows(2))"""
     w = [c for c in f.calls if c.path == "core::slice::<impl [T]>::windows"]
     if len(w) != 1 or w[0].args[1].get("bits") != "2":
-        return False
+        return None         # not the windows(2) form: this reader cannot judge it
     if not all(o[0][0] == "param" for o in f.origins_of_operand(w[0].args[0])):
-        return False
+        return None
     wo = f._call_origins(w[0], (), frozenset())
     lps = [lp for lp in f.loops() if lp["iter"] == wo]
     if len(lps) != 1:
-        return False
+        return None
     lp = lps[0]
     les = [c for c in f.calls if c.path == "std::cmp::PartialOrd::le" and c.bb in lp["body"]]
     if len(les) != 1:
-        return False
+        return None
     idx = []
     for a in les[0].args:
         found = None
@@ -811,7 +817,13 @@ def c14_r7(ctx):
         for c in f.calls:
             if c.name == "count" and c.args:
                 ao = f.origins_of_operand(c.args[0])
-                if any(any(st == ("iter", "chars") or (st[0] in ("iter", "adapt") and "char" in str(st[1])) for st in o[1:]) or (is_call(o) and "chars" in o[0][3]) for o in ao):
+                # the count of *all* characters of a string (a filtered count, e.g. of leading
+                # tabs, can legitimately equal a byte count and is not judged here)
+                def whole_chars(o):
+                    if o and o[-1] == ("iter", "chars"):
+                        return True
+                    return is_call(o) and len(o) == 1 and o[0][3].endswith("::chars")
+                if ao and all(whole_chars(o) for o in ao):
                     seeds[c.dest["local"]] = c
         T = f.tainted_locals(lambda l: l in seeds) if seeds else set()
         for c in f.calls:
